@@ -23,6 +23,9 @@ func (f BooleanNoYesFactoryType) New(v uint8) (BooleanNoYes, error) {
 }
 
 func (f BooleanNoYesFactoryType) NewEnum(v int) (Enum, error) {
+	if v < 0 || v > 255 {
+		return nil, ErrInvalidEnumIdx
+	}
 	return f.New(uint8(v))
 }
 
